@@ -319,7 +319,7 @@ def run(ctx):
     disagreements = []
 
     # ---- (1) loops -----------------------------------------------------------------------------------
-    nl = 400 if tier == "quick" else 12000
+    nl = 400 if tier == "quick" else 40000
     req, got = [], []
     for _ in range(nl):
         prog = gen_prog(rng, 3)
@@ -392,7 +392,7 @@ def run(ctx):
     FR = ["if x:", "elif y:", "else:", "try:", "except KeyError:", "except:", "finally:", "for a in b:", "while c:", "with d:", "def f():", "class K:", "x = 1",
           "format(x):", "iffy = 2", "return d[1:]", "pass", "# comment:", "  # indented comment", "", "   ", "if x: # c", "if x:  ", "x = {'a': 1}", "print('#:')",
           "else :", "elif(z):", "lambda: 0", "y = x if a else b", "__M_writer('t:')", "__M_writer(str(a))\n", "try :", "if a:\n", "if (a,\n  b):", "a = (1,\n 2)", None, None, None]
-    npr = 1500 if tier == "quick" else 40000
+    npr = 1500 if tier == "quick" else 150000
     req2, got2 = [], []
     for _ in range(npr):
         lines = [rng.choice(FR) for _ in range(rng.randint(1, 10))]
@@ -413,7 +413,7 @@ def run(ctx):
     ctx.generators["printer_lines"] = {"cases": npr}
 
     # ---- (3)(4)(5) control structure templates ------------------------------------------------------------
-    nc = 300 if tier == "quick" else 10000
+    nc = 300 if tier == "quick" else 30000
     req3, got3, req4, got4 = [], [], [], []
     saved_wl, saved_vcl = pygen.PythonPrinter.writeline, codegen._GenerateRenderMethod.visitControlLine
     for _ in range(nc):
